@@ -1,3 +1,5 @@
+//go:build !nohook_c11
+
 package c11
 
 import (
